@@ -461,11 +461,12 @@ func checkRej(c RejCase) error {
 		comps[i] = c.Ref
 	}
 	comps[c.Pos%c.N] = c.Comp
-	got, err := runCompare(c.Ref, comps, c.Tips, false)
+	ident := (c.Pos+c.N)%2 == 1 // with and without the identical-only shortcut
+	got, err := runCompare(c.Ref, comps, c.Tips, ident)
 	if err != nil {
 		return err
 	}
-	wgot, err := runWeighted(c.Ref, comps, c.Tips, false)
+	wgot, err := runWeighted(c.Ref, comps, c.Tips, ident)
 	if err != nil {
 		return err
 	}
@@ -494,7 +495,7 @@ func checkRej(c RejCase) error {
 func TestC08Reject(t *testing.T) {
 	h.Run(t, h.Spec[RejCase]{
 		Property: "C08", Name: "reject", Quick: 3000, Thorough: 100000,
-		Rule: "a compared tree with one tip renamed / one tip added / one tip removed / one tip carrying the name of another one (same number of tips) at a drawn position of a stream of 1..5 otherwise identical trees; the record of that tree must carry an error, the others must not; every case is non-trivial",
+		Rule: "a compared tree with one tip renamed / one tip added / one tip removed / one tip carrying the name of another one (same number of tips) at a drawn position of a stream of 1..5 otherwise identical trees; the record of that tree must carry an error, the others must not, with and without the identical-only shortcut; every case is non-trivial",
 		Gen: func(t *rapid.T, thorough bool) RejCase {
 			o := baseOpts(thorough)
 			o.MinTips = 5
